@@ -313,6 +313,8 @@ struct ESys {
     stores_failed: u64,
     pushes_since_boot: u64,
     boot_durable: Option<u64>,
+    /// failed stores since boot: hidden in-memory state may depend on them
+    fails_since_boot: u64,
 }
 
 impl ESys {
@@ -328,7 +330,7 @@ impl ESys {
             wb.u64(&TLVTag::Anonymous, b).unwrap();
             kv.0.borrow_mut().map.insert(EVENT_EPOCH_KEY, wb.as_slice().to_vec());
         }
-        let mut s = Self { kv, matter: new_matter(), ims: None, used: UsedSet::default(), wrapped: false, fault: None, pushes_ok: 0, stores_failed: 0, pushes_since_boot: 0, boot_durable: None };
+        let mut s = Self { kv, matter: new_matter(), ims: None, used: UsedSet::default(), wrapped: false, fault: None, pushes_ok: 0, stores_failed: 0, pushes_since_boot: 0, boot_durable: None, fails_since_boot: 0 };
         s.boot();
         s
     }
@@ -341,6 +343,7 @@ impl ESys {
         }
         self.ims = Some(ims);
         self.pushes_since_boot = 0;
+        self.fails_since_boot = 0;
         self.boot_durable = self.durable();
     }
 
@@ -360,6 +363,7 @@ impl ESys {
         let failed_store = self.kv.0.borrow().failures > failures_before;
         if failed_store {
             self.stores_failed += 1;
+            self.fails_since_boot += 1;
         }
         match res {
             Err(p) => {
@@ -444,11 +448,11 @@ impl ESys {
         }
     }
 
-    fn key(&self) -> (Option<u64>, Vec<(i128, i128)>, bool, u64, Option<u64>) {
+    fn key(&self) -> (Option<u64>, Vec<(i128, i128)>, bool, u64, Option<u64>, u64) {
         let anchor = self.used.ranges.iter().map(|r| r.1).max().unwrap_or(0);
         // the live counter is private; it is determined by the durable value at boot and the
         // number of successful pushes since (over-fine keys only cost time)
-        (self.durable(), self.used.rel(anchor), self.wrapped, self.pushes_since_boot, self.boot_durable)
+        (self.durable(), self.used.rel(anchor), self.wrapped, self.pushes_since_boot, self.boot_durable, self.fails_since_boot)
     }
 }
 
@@ -480,6 +484,8 @@ struct CSys {
     used: UsedSet,
     fault: Option<(String, String)>,
     sends: u64,
+    /// operations since boot that may have moved hidden in-memory state (over-fine key component)
+    hidden: Vec<u8>,
 }
 
 fn icd_mode() -> IcdModeConfig {
@@ -500,7 +506,7 @@ impl CSys {
         }
         let rng = SeededRng::new(11);
         rng.script_u32(&[first_random]);
-        let mut s = Self { kv, rng, icd: None, owes_persist: false, used: UsedSet::default(), fault: None, sends: 0 };
+        let mut s = Self { kv, rng, icd: None, owes_persist: false, used: UsedSet::default(), fault: None, sends: 0, hidden: Vec::new() };
         s.boot(false);
         s
     }
@@ -521,6 +527,7 @@ impl CSys {
         }
         self.icd = Some(icd);
         self.owes_persist = true;
+        self.hidden.clear();
         self.persist(fail_persist);
     }
 
@@ -533,6 +540,8 @@ impl CSys {
         self.kv.0.borrow_mut().fail_attempt = None;
         if r.is_ok() {
             self.owes_persist = false;
+        } else {
+            self.hidden.push(1);
         }
     }
 
@@ -579,6 +588,7 @@ impl CSys {
                 self.kv.0.borrow_mut().fail_attempt = None;
                 if r.is_err() {
                     self.owes_persist = true;
+                    self.hidden.push(2);
                 }
                 true
             }
@@ -616,9 +626,9 @@ impl CSys {
         }
     }
 
-    fn key(&self) -> (u32, Option<u32>, bool, Vec<(i128, i128)>) {
+    fn key(&self) -> (u32, Option<u32>, bool, Vec<(i128, i128)>, Vec<u8>) {
         let next = self.icd.as_ref().unwrap().next_counter();
-        (next, self.durable(), self.owes_persist, self.used.rel(next as u64))
+        (next, self.durable(), self.owes_persist, self.used.rel(next as u64), self.hidden.clone())
     }
 }
 
